@@ -580,16 +580,26 @@ theorem Inv.resume (fl : Flags) (hfl : fl.readyGuarded = true) {s : St} (h : Inv
     cases r with
     | some d =>
       simp only
-      have hd : d < (s1.jobs j).deps.length := by
-        have := b1 d rfl; rw [(t1 j).step.len]; omega
-      obtain ⟨h2, t2⟩ := h1.check fl hfl j d hact1 hd
-      have hpc2 : ((s1.check fl j d).jobs j).pc = .lockEnter := (t2 j).pc.trans hpc1
-      have hact2 : act ((s1.check fl j d).jobs j) := (t2 j).act hact1
-      have hnd : ((s1.check fl j d).jobs j).state ≠ .done := by
+      -- `abortReleases`: the locks already taken are given back before the check (both flag values)
+      have hrel : Inv (if fl.abortReleases = true then s1.releaseAll j (s1.jobs j).held else s1) ∧
+          JKTr s1.jobs (if fl.abortReleases = true then s1.releaseAll j (s1.jobs j).held else s1).jobs := by
+        split
+        · exact h1.releaseAll j _ s1
+        · exact ⟨h1, JKTr.refl _⟩
+      obtain ⟨h1', t1'⟩ := hrel
+      generalize (if fl.abortReleases = true then s1.releaseAll j (s1.jobs j).held else s1) = s1' at h1' t1' ⊢
+      have hpc1' : (s1'.jobs j).pc = .lockEnter := (t1' j).pc.trans hpc1
+      have hact1' : act (s1'.jobs j) := (t1' j).act hact1
+      have hd : d < (s1'.jobs j).deps.length := by
+        have := b1 d rfl; rw [(t1' j).step.len, (t1 j).step.len]; omega
+      obtain ⟨h2, t2⟩ := h1'.check fl hfl j d hact1' hd
+      have hpc2 : ((s1'.check fl j d).jobs j).pc = .lockEnter := (t2 j).pc.trans hpc1'
+      have hact2 : act ((s1'.check fl j d).jobs j) := (t2 j).act hact1'
+      have hnd : ((s1'.check fl j d).jobs j).state ≠ .done := by
         intro e; have := ((h2.loc j).done_pc e).1; exact this hpc2
-      obtain ⟨h3, t3⟩ := h2.putPc j { ((s1.check fl j d).jobs j) with pc := .lockExitAbort } [(.lockExit, j)] hact2
+      obtain ⟨h3, t3⟩ := h2.putPc j { ((s1'.check fl j d).jobs j) with pc := .lockExitAbort } [(.lockExit, j)] hact2
         rfl rfl rfl rfl (by simp) (by simp) (fun e => absurd e hnd)
-      exact ⟨h3, (t1.trans t2).then t3⟩
+      exact ⟨h3, ((t1.trans t1').trans t2).then t3⟩
     | none =>
       simp only
       have hnd : (s1.jobs j).state ≠ .done := by
@@ -865,7 +875,13 @@ theorem Inv.step (fl : Flags) (hfl : fl.readyGuarded = true) {s : St} (h : Inv s
   · have := acquireAll_n j (s.jobs j).deps.length 0 s
     rcases hacq : s.acquireAll j (s.jobs j).deps.length 0 with ⟨s1, r⟩
     rw [hacq] at this
-    cases r <;> simpa using this
+    cases r with
+    | some d =>
+      simp only [put_n, check_n]
+      split
+      · rw [releaseAll_n]; exact this
+      · exact this
+    | none => simpa using this
   · simp
   · rfl
   · simp
